@@ -957,7 +957,12 @@ func genLayouts(p *pkgInfo, out string) {
 	// recv(): a payload buffer is reused only if it has exactly the needed length, and is then
 	// overwritten in full by vecs.ReadFrom (it is one of the vectors)
 	recvReuse := false
-	if fd := p.funcs["recv"]; fd != nil {
+	// (the body lives in recvLimit since the D18 fix; recv is a wrapper)
+	for _, name := range []string{"recvLimit", "recv"} {
+		fd := p.funcs[name]
+		if fd == nil || recvReuse {
+			continue
+		}
 		b := norm(src(fd.Body))
 		recvReuse = strings.Contains(b, "p := payloader.Payload() if p == nil || len(p) != int(remaining-fixedSize) { p = make([]byte, remaining-fixedSize) payloader.SetPayload(p) } if len(p) > 0 { vecs = append(vecs, p) }")
 	}
